@@ -38,6 +38,11 @@ type c11Case struct {
 	// Unset (gRPC only): "msgs", "bytes" or "both" - that limit is sent as 0 / -1
 	// ("no client limit"); the other one stays binding
 	Unset string `json:"unset,omitempty"`
+	// Eager (scripted connection only): the first Eager deliveries are
+	// acknowledged from inside the send call - on the stream, or with an
+	// Acknowledge call outside it
+	Eager        int  `json:"eager,omitempty"`
+	EagerOutside bool `json:"eager_outside,omitempty"`
 }
 
 var c11SizeBytes = []int{12, 200, 5000}
@@ -68,6 +73,38 @@ type flowConn struct {
 	closed    chan struct{}
 	once      sync.Once
 	everFull  bool
+	// eager: the client answers the first deliveries from inside Send /
+	// SendBatch, i.e. before the stream's send call has returned (a fast client
+	// behind a slow transport); eagerFn delivers the answer, then the send
+	// call is held for a moment so that the answer is fully digested first
+	eagerLeft int
+	eagerFn   func(ids []uuid.UUID)
+}
+
+func (c *flowConn) eager(ds []*actions.SubscriptionMessageDelivery) {
+	c.mu.Lock()
+	var ids []uuid.UUID
+	for _, d := range ds {
+		if c.eagerLeft > 0 {
+			if _, ok := c.out[d.ID]; ok {
+				c.eagerLeft--
+				ids = append(ids, d.ID)
+				delete(c.out, d.ID)
+				for i, o := range c.order {
+					if o == d.ID {
+						c.order = append(c.order[:i], c.order[i+1:]...)
+						break
+					}
+				}
+			}
+		}
+	}
+	fn := c.eagerFn
+	c.mu.Unlock()
+	if len(ids) > 0 && fn != nil {
+		fn(ids)
+		time.Sleep(40 * time.Millisecond)
+	}
 }
 
 func newFlowConn(maxMsgs, maxBytes int) *flowConn {
@@ -122,11 +159,13 @@ func (c *flowConn) record(ds []*actions.SubscriptionMessageDelivery) {
 
 func (c *flowConn) Send(ctx context.Context, d *actions.SubscriptionMessageDelivery) error {
 	c.record([]*actions.SubscriptionMessageDelivery{d})
+	c.eager([]*actions.SubscriptionMessageDelivery{d})
 	return nil
 }
 
 func (c *flowConn) SendBatch(ctx context.Context, ds []*actions.SubscriptionMessageDelivery) error {
 	c.record(ds)
+	c.eager(ds)
 	return nil
 }
 
@@ -220,6 +259,16 @@ func runC11(s *sut.SUT, cs c11Case) (rule, detail string, nontrivial bool) {
 			out[i] = id.String()
 		}
 		return out
+	}
+	if cs.Eager > 0 && !cs.Grpc {
+		conn.eagerLeft = cs.Eager
+		conn.eagerFn = func(ids []uuid.UUID) {
+			if cs.EagerOutside {
+				_, _ = s.Sub.Acknowledge(ctx, &pubsubpb.AcknowledgeRequest{Subscription: c11S, AckIds: strs(ids)})
+			} else {
+				conn.recv <- &actions.MessageStreamRequest{Ack: ids}
+			}
+		}
 	}
 	if cs.Grpc {
 		// the real StreamingPull RPC: requests go through the gRPC adaptation layer
@@ -585,6 +634,10 @@ func genC11(rt *rapid.T) c11Case {
 		cs.Steps = append(cs.Steps, c11Step{K: k, N: rapid.IntRange(1, 3).Draw(rt, "n"), Z: rapid.IntRange(0, 2).Draw(rt, "z")})
 	}
 	cs.Grpc = rapid.IntRange(0, 2).Draw(rt, "grpc") == 0
+	if !cs.Grpc && rapid.IntRange(0, 3).Draw(rt, "eager") == 0 {
+		cs.Eager = rapid.IntRange(1, 3).Draw(rt, "neager")
+		cs.EagerOutside = rapid.Bool().Draw(rt, "eager-outside")
+	}
 	if cs.Grpc {
 		cs.Unset = rapid.SampledFrom([]string{"", "", "", "msgs", "bytes", "both"}).Draw(rt, "unset")
 	}
